@@ -253,6 +253,8 @@ def c12_rf13(run):
     rf_bounds.rf13h(run)
     run.min_instances('RF13h', 3)
     rf_bounds.rf88(run)
+    rf_bounds.rf13s(run)
+    run.min_instances('RF13s', 3)
     rf_bounds.rf13_exits(run)
     run.min_instances('RF13e', 8)
     rf_bounds.rf13c(run)
